@@ -2,6 +2,7 @@ import TFV.Properties.Tree
 import TFV.Properties.TreeCR
 import TFV.Properties.Runs
 import TFV.Properties.Src.Levels
+import TFV.Properties.Src.Shrink
 #print axioms TFV.Tree.C08_subtree_wf
 #print axioms TFV.Tree.C08_concat_wf
 #print axioms TFV.Tree.C08_depth_concat
@@ -18,3 +19,5 @@ import TFV.Properties.Src.Levels
 #print axioms TFV.SrcTie.C08_src_get_levels
 #print axioms TFV.SrcTie.C08_src_get_levels_any
 #print axioms TFV.SrcTie.C08_src_get_levels_subterm
+#print axioms TFV.SrcTie.C08_src_shrink_mutation
+#print axioms TFV.SrcTie.C08_src_shrink_closed
